@@ -331,15 +331,19 @@ def tmpl_stack0_data(rng, nan_share=0.2, area_share=0.25):
         # stack 0 is the selected stack; part of an input line is consumed, then NaN (and ordinary values) are pushed ONTO
         # stack 0 while the rest of the line is still unread, and everything is popped and printed again: NaN must be kept
         # (the stack is not empty: unread characters of the line are below it)
-        prog = [(5, 1, 0, None)] + [(1, 1, 1, None)] * rng.randint(1, 3)
+        # (0 printed characters first: the 0 is then the ONLY item of stack 0 and the NaN put back is dropped, so the next
+        # pop - possibly a test of the same command's area - reads a fresh line)
+        prog = [(5, 1, 0, None)] + [(1, 1, 1, None)] * rng.randint(0, 3)
+        ar = lambda: rng.choice([None, None, ('?', None, None), ('?', 4, None), ('!', None, 4), ('?', None, ('!', 4, None)),
+                                 rand_area(rng, [4, 5, 13], p_none=0.0, p_slot_none=0.5)])
         for _ in range(rng.randint(1, 2)):
             r = rng.random()
             if r < 0.5:
-                prog += [(0, 1, 0, None), (4, 1, rng.choice([3, 4, 0]), None)]             # 0, then 1/0 back onto stack 0
+                prog += [(0, 1, 0, None), (4, 1, rng.choice([3, 4, 0]), ar())]             # 0, then 1/0 back onto stack 0
             elif r < 0.7:
-                prog += [(0, 1, 0, None), (0, 1, 0, None), (4, 2, rng.choice([3, 0]), None)]
+                prog += [(0, 1, 0, None), (0, 1, 0, None), (4, 2, rng.choice([3, 0]), ar())]
             elif r < 0.85:
-                prog += [(0, 1, rng.choice([65, 66]), None), (0, 1, 0, None), (4, 1, 3, None)]
+                prog += [(0, 1, rng.choice([65, 66]), None), (0, 1, 0, None), (4, 1, 3, ar())]
             else:
                 prog += [(5, 1, 4, None), (1, 2, 0, None), (5, 1, 0, None)]                # NaN sum from stack 4 sent to stack 0
         prog += [(1, 1, rng.choice([1, 1, 2]), None)] * rng.randint(2, 6)
@@ -464,6 +468,17 @@ HOSTILE_SEQS = ['\r\n', 'A\r\nB\r\n', '\n\n', '\r\r\n', ' \n ', '\t\n', '{}', '{
 
 
 def tmpl_hostile_output(rng, allow_unencodable=True):
+    if rng.random() < 0.25:
+        # a BANNER: several lines (100-700 bytes) with one kind of line break (CR LF, LF, CR, LF CR), with or without a final
+        # break, written before anything is read - long pre-computed text is where emitters start to split, wrap or re-flow
+        sep = rng.choice(['\r\n', '\r\n', '\n', '\r', '\n\r', '\r\r\n'])
+        lines = [''.join(rng.choice('abcXYZ 019{}"%\\' + '한é😀') for _ in range(rng.randint(0, 45))) for _ in range(rng.randint(3, 9))]
+        text = sep.join(lines) + rng.choice([sep, sep, '', '\n'])
+        sink = rng.choice([1, 1, 2])
+        prog = print_chars([ord(ch) for ch in text], 3, sink)
+        if rng.random() < 0.6:
+            prog += read_fragment(rng) + print_chars([rng.choice([65, 0x0a, 0x0d])], 3, 1)
+        return prog
     codes = [rng.choice(HOSTILE) for _ in range(rng.randint(1, 6))]
     if rng.random() < 0.4:
         codes += [ord(ch) for ch in rng.choice(HOSTILE_SEQS)] + [rng.choice(HOSTILE)]
@@ -683,6 +698,25 @@ def tmpl_label_table(rng):
     return prog
 
 
+def tmpl_far_stacks(rng):
+    """Values parked on SEVERAL stacks with large numbers (31, 32, 33, 40, 64, 255, 256, 1000 ...) at the same time, each
+    selected in turn, popped, compared and printed: stack numbers beyond any small table, two or more of them alive."""
+    nums = rng.sample([31, 32, 33, 40, 63, 64, 65, 100, 255, 256, 1000, 12, 5], rng.randint(2, 4))
+    prog = []
+    for k, s in enumerate(nums):
+        for _ in range(rng.randint(1, 2)):
+            prog += push_value(rng.choice([65, 66, 72, 105, 48]) + k) + [(1, 1, s, None)]       # park a character on stack s
+    order = list(nums)
+    rng.shuffle(order)
+    for s in order:
+        prog += [(5, 1, s, None)]                                                              # select it (a copy of NaN / top is added)
+        prog += [(1, 1, rng.choice([1, 1, 2]), rng.choice([None, None, ('?', None, None)]))] * rng.randint(1, 3)
+        if rng.random() < 0.4:
+            prog += [(0, 1, 3, None), (1, 2, rng.choice(nums), None)]                           # send something to another far stack
+        prog += [(5, 1, 3, None)] if rng.random() < 0.5 else []
+    return prog
+
+
 def tmpl_zoo(rng, allow_input=True):
     """A long, mostly straight-line program that shows MANY different command forms to one run (and one compilation):
     every command type with 1-6 syllables, 0-12 dots, areas of every shape over all twelve hearts.  Values are kept
@@ -697,7 +731,7 @@ def tmpl_zoo(rng, allow_input=True):
             continue
         t = rng.choice([0, 1, 1, 2, 2, 3, 3, 4, 4, 5, 5])
         h = rng.choice([1, 1, 2, 2, 3, 4, 5, 6])
-        d = rng.choice([3, 3, 3, 4, 5, 6, 7, 8, 9, 10, 12, 1, 2] + ([0] if allow_input else []))
+        d = rng.choice([3, 3, 3, 4, 5, 6, 7, 8, 9, 10, 12, 1, 2, rng.choice([31, 32, 33, 40, 64, 100])] + ([0] if allow_input else []))
         if t == 5 and d in (1, 2):
             d = rng.choice([3, 4, 5])                      # selecting an output stack would end the show at the next pop
         if t == 5 and d == 0 and rng.random() < 0.7:
@@ -995,6 +1029,7 @@ INPUT_TEMPLATES = {
     'label_table': lambda rng, ai: tmpl_label_table(rng),
     'two_labels': lambda rng, ai: tmpl_two_labels(rng),
     'zoo': lambda rng, ai: tmpl_zoo(rng, ai),
+    'far_stacks': lambda rng, ai: tmpl_far_stacks(rng),
     'big_fraction_output': lambda rng, ai: tmpl_big_fraction_output(rng),
     'first_command_source': lambda rng, ai: tmpl_first_command_source(rng),
     'abandoned_return': lambda rng, ai: tmpl_abandoned_return(rng),
